@@ -879,6 +879,20 @@ private:
       {
         try { c.listenerReady->set_value(false); } catch (...) {}
       }
+      if (c.t == CmdType::Connect || c.t == CmdType::Via)
+      {
+        // connect()/connectViaListener() accepted this command (and returned its
+        // id to the caller) after the process() pass above: the id still owes
+        // its close callback.
+        decltype(_cbs.onClose) closeCb;
+        { std::lock_guard<std::mutex> g(_cbMutex); closeCb = _cbs.onClose; }
+        if (closeCb)
+        {
+          closeCb(c.t == CmdType::Connect ? c.c.sid : c.v.sid,
+                  TransportErrorInfo{TransportError::ShuttingDown,
+                                     "connect: transport shutting down"});
+        }
+      }
     }
     if (_epollFd >= 0)
     {
